@@ -224,6 +224,15 @@ func (r *Run) flush() {
 	}
 }
 
+// Unstable records a failure the oracle really observed that does not show
+// again when the case is re-run alone (see report.Checker.Unstable): a
+// violation, not an engine error.
+func (r *Run) Unstable(fp, what string, replay interface{}) {
+	r.mu.Lock()
+	r.Chk.Unstable(fp, what, replay)
+	r.mu.Unlock()
+}
+
 // EngineError records a failure of the machinery.
 func (r *Run) EngineError(format string, args ...interface{}) {
 	r.mu.Lock()
